@@ -632,6 +632,8 @@ class Interp(ExprMixin, LoopMixin, CallMixin):
 
     def set_item(self, obj, key, v, node):
         self.event('setitem', node, obj=obj, key=key, value=v)
+        if isinstance(obj, (DictV, ListV)) and 'global' in obj.tags:
+            self.event('mutate-shared', node, target=obj, how='item assignment')
         if isinstance(obj, DictV):
             k = self.py_key(key)
             if k is not None:
